@@ -131,21 +131,33 @@ theorem floatIdValue_rt (cx : Ctx F E) (id : SlotId) : RT (floatIdValue cx id) :
 theorem slotUpdate_mt (id : SlotId) (v : ValueData F) : MT (slotUpdate id v) := by
   constructor; intro s h; cases h
 theorem portRead_rt (cx : Ctx F E) (port : NodeId) (a : Int) (len : Nat) : RT (portRead cx port a len) := by
-  unfold portRead
-  split
-  · rename_i b chunk
+  constructor; intro s; unfold portRead
+  generalize cx.graph port = g
+  cases g with
+  | none => intro h; cases h
+  | some nd =>
+    cases nd <;> try (intro h; cases h; done)
+    rename_i b chunk
     cases chunk
-    · constructor; intro s; simp only [Bool.false_eq_true, if_false]; split <;> intro h <;> cases h
-    · simp only [if_true]; exact RT.err (by decide)
-  · exact RT.err (by decide)
+    · show (match s.dev.read a len with
+        | some bs => ((Res.ok bs : Res Err Bytes), [Access.read a len true])
+        | none => (Res.err Err.device, [Access.read a len false])).1 ≠ _
+      split <;> intro h <;> cases h
+    · intro h; cases h
 theorem portWrite_mt (cx : Ctx F E) (port : NodeId) (a : Int) (data : Bytes) : MT (portWrite cx port a data) := by
-  unfold portWrite
-  split
-  · rename_i b chunk
+  constructor; intro s; unfold portWrite
+  generalize cx.graph port = g
+  cases g with
+  | none => intro h; cases h
+  | some nd =>
+    cases nd <;> try (intro h; cases h; done)
+    rename_i b chunk
     cases chunk
-    · constructor; intro s; simp only [Bool.false_eq_true, if_false]; split <;> intro h <;> cases h
-    · simp only [if_true]; exact MT.panic
-  · exact MT.err (by decide)
+    · show (match s.dev.write a data with
+        | some d => ((Res.ok () : Res Err Unit), ({ s with dev := d } : S F), [Access.write a (canonWrite data) true])
+        | none => (Res.err Err.device, s, [Access.write a (canonWrite data) false])).1 ≠ _
+      split <;> intro h <;> cases h
+    · intro h; cases h
 theorem readAndCache_rt (cx : Ctx F E) (rb : RegBase) (a l : Int) (n : Nat) : RT (readAndCache cx rb a l n) := by
   unfold readAndCache; split
   · exact RT.err (by decide)
@@ -879,5 +891,338 @@ theorem top_total (h : TotalRec r) (o : OpsTotal cx.ops) (req : Req F) (st : St 
         | exact strSetF_rt h o _ _ | exact boolSetF_rt h o _ _ | exact enumSetByValueF_rt h o _ _
         | exact enumSetByNameF_rt h o _ _ | exact cmdExecuteF_rt h o _ | exact regWriteF_rt h o _ _) _
 end
+
+/-! ### acyclicity vocabulary -/
+
+/-- two records of interface calls coincide on node `p` -/
+structure AgreeAt (r1 r2 : Rec F) (p : NodeId) : Prop where
+  intValue : r1.intValue p = r2.intValue p
+  intMin : r1.intMin p = r2.intMin p
+  intMax : r1.intMax p = r2.intMax p
+  intInc : r1.intInc p = r2.intInc p
+  intIsReadable : r1.intIsReadable p = r2.intIsReadable p
+  intIsWritable : r1.intIsWritable p = r2.intIsWritable p
+  floatValue : r1.floatValue p = r2.floatValue p
+  floatMin : r1.floatMin p = r2.floatMin p
+  floatMax : r1.floatMax p = r2.floatMax p
+  floatInc : r1.floatInc p = r2.floatInc p
+  floatIsReadable : r1.floatIsReadable p = r2.floatIsReadable p
+  floatIsWritable : r1.floatIsWritable p = r2.floatIsWritable p
+  strValue : r1.strValue p = r2.strValue p
+  strMaxLength : r1.strMaxLength p = r2.strMaxLength p
+  strIsReadable : r1.strIsReadable p = r2.strIsReadable p
+  strIsWritable : r1.strIsWritable p = r2.strIsWritable p
+  boolValue : r1.boolValue p = r2.boolValue p
+  boolIsReadable : r1.boolIsReadable p = r2.boolIsReadable p
+  boolIsWritable : r1.boolIsWritable p = r2.boolIsWritable p
+  enumCurrentValue : r1.enumCurrentValue p = r2.enumCurrentValue p
+  enumCurrentEntry : r1.enumCurrentEntry p = r2.enumCurrentEntry p
+  enumIsReadable : r1.enumIsReadable p = r2.enumIsReadable p
+  enumIsWritable : r1.enumIsWritable p = r2.enumIsWritable p
+  intSet : r1.intSet p = r2.intSet p
+  floatSet : r1.floatSet p = r2.floatSet p
+  strSet : r1.strSet p = r2.strSet p
+  boolSet : r1.boolSet p = r2.boolSet p
+  enumSetByValue : r1.enumSetByValue p = r2.enumSetByValue p
+
+/-- the interface calls on node `p` never answer `outOfFuel` -/
+structure TotalAt (r : Rec F) (p : NodeId) : Prop where
+  intValue : RT (r.intValue p)
+  intMin : RT (r.intMin p)
+  intMax : RT (r.intMax p)
+  intInc : RT (r.intInc p)
+  intIsReadable : RT (r.intIsReadable p)
+  intIsWritable : RT (r.intIsWritable p)
+  floatValue : RT (r.floatValue p)
+  floatMin : RT (r.floatMin p)
+  floatMax : RT (r.floatMax p)
+  floatInc : RT (r.floatInc p)
+  floatIsReadable : RT (r.floatIsReadable p)
+  floatIsWritable : RT (r.floatIsWritable p)
+  strValue : RT (r.strValue p)
+  strMaxLength : RT (r.strMaxLength p)
+  strIsReadable : RT (r.strIsReadable p)
+  strIsWritable : RT (r.strIsWritable p)
+  boolValue : RT (r.boolValue p)
+  boolIsReadable : RT (r.boolIsReadable p)
+  boolIsWritable : RT (r.boolIsWritable p)
+  enumCurrentValue : RT (r.enumCurrentValue p)
+  enumCurrentEntry : RT (r.enumCurrentEntry p)
+  enumIsReadable : RT (r.enumIsReadable p)
+  enumIsWritable : RT (r.enumIsWritable p)
+  intSet : ∀ v, MT (r.intSet p v)
+  floatSet : ∀ v, MT (r.floatSet p v)
+  strSet : ∀ v, MT (r.strSet p v)
+  boolSet : ∀ v, MT (r.boolSet p v)
+  enumSetByValue : ∀ v, MT (r.enumSetByValue p v)
+
+/-- `r` on the nodes selected by `ok`, a fixed non-`outOfFuel` answer elsewhere -/
+def patchRec (ok : NodeId → Bool) (r : Rec F) : Rec F where
+  intValue p := if ok p then r.intValue p else R.err .invalidNode
+  intMin p := if ok p then r.intMin p else R.err .invalidNode
+  intMax p := if ok p then r.intMax p else R.err .invalidNode
+  intInc p := if ok p then r.intInc p else R.err .invalidNode
+  intIsReadable p := if ok p then r.intIsReadable p else R.err .invalidNode
+  intIsWritable p := if ok p then r.intIsWritable p else R.err .invalidNode
+  floatValue p := if ok p then r.floatValue p else R.err .invalidNode
+  floatMin p := if ok p then r.floatMin p else R.err .invalidNode
+  floatMax p := if ok p then r.floatMax p else R.err .invalidNode
+  floatInc p := if ok p then r.floatInc p else R.err .invalidNode
+  floatIsReadable p := if ok p then r.floatIsReadable p else R.err .invalidNode
+  floatIsWritable p := if ok p then r.floatIsWritable p else R.err .invalidNode
+  strValue p := if ok p then r.strValue p else R.err .invalidNode
+  strMaxLength p := if ok p then r.strMaxLength p else R.err .invalidNode
+  strIsReadable p := if ok p then r.strIsReadable p else R.err .invalidNode
+  strIsWritable p := if ok p then r.strIsWritable p else R.err .invalidNode
+  boolValue p := if ok p then r.boolValue p else R.err .invalidNode
+  boolIsReadable p := if ok p then r.boolIsReadable p else R.err .invalidNode
+  boolIsWritable p := if ok p then r.boolIsWritable p else R.err .invalidNode
+  enumCurrentValue p := if ok p then r.enumCurrentValue p else R.err .invalidNode
+  enumCurrentEntry p := if ok p then r.enumCurrentEntry p else R.err .invalidNode
+  enumIsReadable p := if ok p then r.enumIsReadable p else R.err .invalidNode
+  enumIsWritable p := if ok p then r.enumIsWritable p else R.err .invalidNode
+  intSet p v := if ok p then r.intSet p v else M.err .invalidNode
+  floatSet p v := if ok p then r.floatSet p v else M.err .invalidNode
+  strSet p v := if ok p then r.strSet p v else M.err .invalidNode
+  boolSet p v := if ok p then r.boolSet p v else M.err .invalidNode
+  enumSetByValue p v := if ok p then r.enumSetByValue p v else M.err .invalidNode
+
+theorem patch_total {ok : NodeId → Bool} {r : Rec F} (h : ∀ p, ok p = true → TotalAt r p) :
+    TotalRec (patchRec ok r) where
+  intValue := fun p => by
+    unfold patchRec; dsimp only; split
+    · rename_i hp; exact (h p hp).intValue
+    · exact RT.err (by decide)
+  intMin := fun p => by
+    unfold patchRec; dsimp only; split
+    · rename_i hp; exact (h p hp).intMin
+    · exact RT.err (by decide)
+  intMax := fun p => by
+    unfold patchRec; dsimp only; split
+    · rename_i hp; exact (h p hp).intMax
+    · exact RT.err (by decide)
+  intInc := fun p => by
+    unfold patchRec; dsimp only; split
+    · rename_i hp; exact (h p hp).intInc
+    · exact RT.err (by decide)
+  intIsReadable := fun p => by
+    unfold patchRec; dsimp only; split
+    · rename_i hp; exact (h p hp).intIsReadable
+    · exact RT.err (by decide)
+  intIsWritable := fun p => by
+    unfold patchRec; dsimp only; split
+    · rename_i hp; exact (h p hp).intIsWritable
+    · exact RT.err (by decide)
+  floatValue := fun p => by
+    unfold patchRec; dsimp only; split
+    · rename_i hp; exact (h p hp).floatValue
+    · exact RT.err (by decide)
+  floatMin := fun p => by
+    unfold patchRec; dsimp only; split
+    · rename_i hp; exact (h p hp).floatMin
+    · exact RT.err (by decide)
+  floatMax := fun p => by
+    unfold patchRec; dsimp only; split
+    · rename_i hp; exact (h p hp).floatMax
+    · exact RT.err (by decide)
+  floatInc := fun p => by
+    unfold patchRec; dsimp only; split
+    · rename_i hp; exact (h p hp).floatInc
+    · exact RT.err (by decide)
+  floatIsReadable := fun p => by
+    unfold patchRec; dsimp only; split
+    · rename_i hp; exact (h p hp).floatIsReadable
+    · exact RT.err (by decide)
+  floatIsWritable := fun p => by
+    unfold patchRec; dsimp only; split
+    · rename_i hp; exact (h p hp).floatIsWritable
+    · exact RT.err (by decide)
+  strValue := fun p => by
+    unfold patchRec; dsimp only; split
+    · rename_i hp; exact (h p hp).strValue
+    · exact RT.err (by decide)
+  strMaxLength := fun p => by
+    unfold patchRec; dsimp only; split
+    · rename_i hp; exact (h p hp).strMaxLength
+    · exact RT.err (by decide)
+  strIsReadable := fun p => by
+    unfold patchRec; dsimp only; split
+    · rename_i hp; exact (h p hp).strIsReadable
+    · exact RT.err (by decide)
+  strIsWritable := fun p => by
+    unfold patchRec; dsimp only; split
+    · rename_i hp; exact (h p hp).strIsWritable
+    · exact RT.err (by decide)
+  boolValue := fun p => by
+    unfold patchRec; dsimp only; split
+    · rename_i hp; exact (h p hp).boolValue
+    · exact RT.err (by decide)
+  boolIsReadable := fun p => by
+    unfold patchRec; dsimp only; split
+    · rename_i hp; exact (h p hp).boolIsReadable
+    · exact RT.err (by decide)
+  boolIsWritable := fun p => by
+    unfold patchRec; dsimp only; split
+    · rename_i hp; exact (h p hp).boolIsWritable
+    · exact RT.err (by decide)
+  enumCurrentValue := fun p => by
+    unfold patchRec; dsimp only; split
+    · rename_i hp; exact (h p hp).enumCurrentValue
+    · exact RT.err (by decide)
+  enumCurrentEntry := fun p => by
+    unfold patchRec; dsimp only; split
+    · rename_i hp; exact (h p hp).enumCurrentEntry
+    · exact RT.err (by decide)
+  enumIsReadable := fun p => by
+    unfold patchRec; dsimp only; split
+    · rename_i hp; exact (h p hp).enumIsReadable
+    · exact RT.err (by decide)
+  enumIsWritable := fun p => by
+    unfold patchRec; dsimp only; split
+    · rename_i hp; exact (h p hp).enumIsWritable
+    · exact RT.err (by decide)
+  intSet := fun p v => by
+    unfold patchRec; dsimp only; split
+    · rename_i hp; exact (h p hp).intSet v
+    · exact MT.err (by decide)
+  floatSet := fun p v => by
+    unfold patchRec; dsimp only; split
+    · rename_i hp; exact (h p hp).floatSet v
+    · exact MT.err (by decide)
+  strSet := fun p v => by
+    unfold patchRec; dsimp only; split
+    · rename_i hp; exact (h p hp).strSet v
+    · exact MT.err (by decide)
+  boolSet := fun p v => by
+    unfold patchRec; dsimp only; split
+    · rename_i hp; exact (h p hp).boolSet v
+    · exact MT.err (by decide)
+  enumSetByValue := fun p v => by
+    unfold patchRec; dsimp only; split
+    · rename_i hp; exact (h p hp).enumSetByValue v
+    · exact MT.err (by decide)
+
+theorem patch_agree {ok : NodeId → Bool} (r : Rec F) {p : NodeId} (hp : ok p = true) :
+    AgreeAt r (patchRec ok r) p where
+  intValue := by unfold patchRec; simp [hp]
+  intMin := by unfold patchRec; simp [hp]
+  intMax := by unfold patchRec; simp [hp]
+  intInc := by unfold patchRec; simp [hp]
+  intIsReadable := by unfold patchRec; simp [hp]
+  intIsWritable := by unfold patchRec; simp [hp]
+  floatValue := by unfold patchRec; simp [hp]
+  floatMin := by unfold patchRec; simp [hp]
+  floatMax := by unfold patchRec; simp [hp]
+  floatInc := by unfold patchRec; simp [hp]
+  floatIsReadable := by unfold patchRec; simp [hp]
+  floatIsWritable := by unfold patchRec; simp [hp]
+  strValue := by unfold patchRec; simp [hp]
+  strMaxLength := by unfold patchRec; simp [hp]
+  strIsReadable := by unfold patchRec; simp [hp]
+  strIsWritable := by unfold patchRec; simp [hp]
+  boolValue := by unfold patchRec; simp [hp]
+  boolIsReadable := by unfold patchRec; simp [hp]
+  boolIsWritable := by unfold patchRec; simp [hp]
+  enumCurrentValue := by unfold patchRec; simp [hp]
+  enumCurrentEntry := by unfold patchRec; simp [hp]
+  enumIsReadable := by unfold patchRec; simp [hp]
+  enumIsWritable := by unfold patchRec; simp [hp]
+  intSet := by unfold patchRec; funext v; simp [hp]
+  floatSet := by unfold patchRec; funext v; simp [hp]
+  strSet := by unfold patchRec; funext v; simp [hp]
+  boolSet := by unfold patchRec; funext v; simp [hp]
+  enumSetByValue := by unfold patchRec; funext v; simp [hp]
+
+theorem TotalAt.of_agree {r1 r2 : Rec F} {p : NodeId} (h : AgreeAt r1 r2 p) (ht : TotalAt r2 p) :
+    TotalAt r1 p where
+  intValue := by rw [h.intValue]; exact ht.intValue
+  intMin := by rw [h.intMin]; exact ht.intMin
+  intMax := by rw [h.intMax]; exact ht.intMax
+  intInc := by rw [h.intInc]; exact ht.intInc
+  intIsReadable := by rw [h.intIsReadable]; exact ht.intIsReadable
+  intIsWritable := by rw [h.intIsWritable]; exact ht.intIsWritable
+  floatValue := by rw [h.floatValue]; exact ht.floatValue
+  floatMin := by rw [h.floatMin]; exact ht.floatMin
+  floatMax := by rw [h.floatMax]; exact ht.floatMax
+  floatInc := by rw [h.floatInc]; exact ht.floatInc
+  floatIsReadable := by rw [h.floatIsReadable]; exact ht.floatIsReadable
+  floatIsWritable := by rw [h.floatIsWritable]; exact ht.floatIsWritable
+  strValue := by rw [h.strValue]; exact ht.strValue
+  strMaxLength := by rw [h.strMaxLength]; exact ht.strMaxLength
+  strIsReadable := by rw [h.strIsReadable]; exact ht.strIsReadable
+  strIsWritable := by rw [h.strIsWritable]; exact ht.strIsWritable
+  boolValue := by rw [h.boolValue]; exact ht.boolValue
+  boolIsReadable := by rw [h.boolIsReadable]; exact ht.boolIsReadable
+  boolIsWritable := by rw [h.boolIsWritable]; exact ht.boolIsWritable
+  enumCurrentValue := by rw [h.enumCurrentValue]; exact ht.enumCurrentValue
+  enumCurrentEntry := by rw [h.enumCurrentEntry]; exact ht.enumCurrentEntry
+  enumIsReadable := by rw [h.enumIsReadable]; exact ht.enumIsReadable
+  enumIsWritable := by rw [h.enumIsWritable]; exact ht.enumIsWritable
+  intSet := fun v => by rw [h.intSet]; exact ht.intSet v
+  floatSet := fun v => by rw [h.floatSet]; exact ht.floatSet v
+  strSet := fun v => by rw [h.strSet]; exact ht.strSet v
+  boolSet := fun v => by rw [h.boolSet]; exact ht.boolSet v
+  enumSetByValue := fun v => by rw [h.enumSetByValue]; exact ht.enumSetByValue v
+
+theorem TotalRec.at {r : Rec F} (h : TotalRec r) (p : NodeId) : TotalAt r p where
+  intValue := h.intValue p
+  intMin := h.intMin p
+  intMax := h.intMax p
+  intInc := h.intInc p
+  intIsReadable := h.intIsReadable p
+  intIsWritable := h.intIsWritable p
+  floatValue := h.floatValue p
+  floatMin := h.floatMin p
+  floatMax := h.floatMax p
+  floatInc := h.floatInc p
+  floatIsReadable := h.floatIsReadable p
+  floatIsWritable := h.floatIsWritable p
+  strValue := h.strValue p
+  strMaxLength := h.strMaxLength p
+  strIsReadable := h.strIsReadable p
+  strIsWritable := h.strIsWritable p
+  boolValue := h.boolValue p
+  boolIsReadable := h.boolIsReadable p
+  boolIsWritable := h.boolIsWritable p
+  enumCurrentValue := h.enumCurrentValue p
+  enumCurrentEntry := h.enumCurrentEntry p
+  enumIsReadable := h.enumIsReadable p
+  enumIsWritable := h.enumIsWritable p
+  intSet := fun v => h.intSet p v
+  floatSet := fun v => h.floatSet p v
+  strSet := fun v => h.strSet p v
+  boolSet := fun v => h.boolSet p v
+  enumSetByValue := fun v => h.enumSetByValue p v
+
+/-- the node a request addresses -/
+def reqNode : Req F → NodeId
+  | .intValue n | .intSet n _ | .intMin n | .intMax n | .intInc n | .intSetMin n _ | .intSetMax n _
+  | .floatValue n | .floatSet n _ | .floatMin n | .floatMax n | .floatInc n | .floatSetMin n _
+  | .floatSetMax n _ | .strValue n | .strSet n _ | .strMaxLength n | .boolValue n | .boolSet n _
+  | .enumCurrentValue n | .enumCurrentEntry n | .enumSetByValue n _ | .enumSetByName n _
+  | .enumEntries n | .cmdExecute n | .cmdIsDone n | .regRead n _ | .regWrite n _ | .regAddress n
+  | .regLength n | .isReadable n | .isWritable n | .isImplemented n | .isAvailable n | .isLocked n => n
+
+/-- **Acyclicity** of a graph w.r.t. a rank function, stated semantically: what the
+interface calls on a node answer is determined by the interface calls on nodes of strictly
+smaller rank (a node only consults lower-ranked nodes). -/
+structure Acyclic (cx : Ctx F E) (rank : NodeId → Nat) : Prop where
+  step : ∀ n r1 r2, (∀ p, rank p < rank n → AgreeAt r1 r2 p) → AgreeAt (step cx r1) (step cx r2) n
+  top : ∀ (req : Req F) (st : St F) r1 r2, (∀ p, rank p < rank (reqNode req) → AgreeAt r1 r2 p) →
+    top cx r1 req st = top cx r2 req st
+
+/-- with `k` levels of fuel every node of rank below `k` is total -/
+theorem total_below {cx : Ctx F E} {rank : NodeId → Nat} (hA : Acyclic cx rank) (o : OpsTotal cx.ops) :
+    ∀ k n, rank n < k → TotalAt (execRec cx k) n
+  | 0, _, h => by omega
+  | k + 1, n, hn => by
+    have ih := total_below hA o k
+    let ok : NodeId → Bool := fun p => decide (rank p < k)
+    have ht : TotalRec (patchRec ok (execRec cx k)) :=
+      patch_total (fun p hp => ih p (by simpa [ok] using hp))
+    have hs := step_total (cx := cx) ht o
+    have ha : AgreeAt (step cx (execRec cx k)) (step cx (patchRec ok (execRec cx k))) n :=
+      hA.step n _ _ (fun p hp => patch_agree _ (by simp only [ok, decide_eq_true_eq]; omega))
+    exact TotalAt.of_agree ha (hs.at n)
 
 end CamVerif.C03
